@@ -61,6 +61,11 @@ Proof. vm_compute. repeat split. Qed.
 Theorem C08_code_order : exchange_order.
 Proof. exact exchange_order_holds. Qed.
 
+(* ... and these are all the paths: every list of decisions long enough to reach the end of any path through the
+   skeleton yields one of the model's traces *)
+Theorem C08_code_paths_complete : exchange_paths_complete.
+Proof. exact exchange_paths_complete_holds. Qed.
+
 Print Assumptions C08_invariant.
 Print Assumptions C08_sends_are_wire.
 Print Assumptions C08_no_retry_when_nonpositive.
@@ -69,3 +74,4 @@ Print Assumptions C08_returns_after_ctx_done.
 Print Assumptions C08_flood_cannot_starve_cancellation.
 Print Assumptions C08_dial_failure_maps_to_ctx.
 Print Assumptions C08_code_order.
+Print Assumptions C08_code_paths_complete.
